@@ -69,6 +69,14 @@ def kernel(eng, obl, out):
             obl.discharged += 1
         else:
             out.violation("visit_path-recursion", "-", "Visitor::visit_path does not continue the traversal into nested paths")
+        # the lookup key is the unraw'd first segment (the set holds unraw'd identifiers)
+        for e in r.events:
+            if e[0] == "HashSet::contains":
+                obl.total += 1
+                if "unraw" in e[1][1] and "segments.[0]" in e[1][1]:
+                    obl.discharged += 1
+                else:
+                    out.violation("visit_path-lookup-key", "-", "the parameter lookup does not use the unraw'd first path segment: HashSet::contains(%s)" % e[1][1][:120])
     for label, model, info in obl.failed:
         if info and info[0] == "kernel":
             out.violation("visit_path-flag", "-", info[1])
